@@ -217,6 +217,10 @@ pub fn p2_configs() -> Vec<P2Cfg> {
     ]
 }
 
+/// a sleep of 2^31 ms + 1 s (the host was suspended for 25 days): every timer is met far
+/// beyond its deadline, and 32-bit millisecond arithmetic anywhere would wrap
+pub const LONG_SLEEP_US: i64 = ((1i64 << 31) + 1_000) * 1_000;
+
 #[derive(Clone, Debug, PartialEq)]
 pub enum P2Ev {
     /// advance to poll_at (or +1 s if None) and poll
@@ -613,7 +617,7 @@ impl Harness for P2 {
         if self.cfg.served {
             // a small alphabet of its own, so that a whole acquire / renew / rebind / refuse
             // history fits the depth bound
-            let mut v = vec![(P2Ev::Tick, 0), (P2Ev::Plus(500_000), 0), (P2Ev::UdpToResolved, 0)];
+            let mut v = vec![(P2Ev::Tick, 0), (P2Ev::Plus(500_000), 0), (P2Ev::Plus(LONG_SLEEP_US), 0), (P2Ev::UdpToResolved, 0)];
             if self.last_dhcp.is_some() {
                 v.push((P2Ev::DhcpAnswer { lease_s: 1000 }, 0));
                 v.push((P2Ev::DhcpAnswer { lease_s: 60 }, 0));
@@ -625,6 +629,7 @@ impl Harness for P2 {
             (P2Ev::Tick, 0),
             (P2Ev::Plus(500_000), 0),
             (P2Ev::Plus(61_000_000), 0),
+            (P2Ev::Plus(LONG_SLEEP_US), 0),
             (P2Ev::UdpToUnresolved, 0),
             (P2Ev::UdpToResolved, 0),
             (P2Ev::UdpBig, 0),
@@ -648,6 +653,7 @@ impl Harness for P2 {
                 (P2Ev::Tick, 0),
                 (P2Ev::Plus(500_000), 0),
                 (P2Ev::Plus(61_000_000), 0),
+                (P2Ev::Plus(LONG_SLEEP_US), 0),
                 (P2Ev::DnsQuery, 0),
                 (P2Ev::DnsQueryB, 0),
                 (P2Ev::DnsQueryLocal, 0),
@@ -659,6 +665,7 @@ impl Harness for P2 {
             v = vec![
                 (P2Ev::Tick, 0),
                 (P2Ev::Plus(500_000), 0),
+                (P2Ev::Plus(LONG_SLEEP_US), 0),
                 (P2Ev::UdpToUnresolved, 0),
                 (P2Ev::ArpReplyFromPeer, 0),
                 (P2Ev::UdpToUnresolvedV6, 0),
@@ -812,6 +819,7 @@ pub fn run(tier: Tier) -> i32 {
     }
     rep.cov("rule", json!("at every state reached (tcp2: all executions with <=k deviations; interface: BFS to depth d) the deadline D = poll_at(t) is probed by fresh replays that poll once at p in {t, t+1us, midway, D-1ms, D-1us} (D=None: t+1s, +1000s, +1e6s): nothing may be transmitted (MLD/IGMP reports excepted); a quiet poll must leave D None or > t"));
     rep.assumptions.push("IGMP/MLD report frames are filtered out (outside the claim); the device always accepts frames".into());
+    rep.assumptions.push("interface alphabets: time moves by Tick (to the deadline), +0.5 s, +61 s and a sleep of 2^31 ms + 1 s (25 days, in every alphabet except the device-throttle one), each followed by one poll".into());
     rep.assumptions.push("DHCP configuration events are not applied to the interface in part 2 (they are application calls)".into());
     rep.finish()
 }
